@@ -3,7 +3,7 @@ import z3
 
 from pyvc.core import *  # noqa: F403
 from pyvc.spec import Contract, Clause, P, H, CANARY
-from .base_c import GW, MSG, BUFT, GHOST_LOG
+from .base_c import NOFAIL, FAILED, GW, MSG, BUFT, GHOST_LOG
 from .codec_c import ACCEPT, F
 from .specfuncs import gget
 
@@ -31,17 +31,26 @@ def outgoing_contract(name, has_buffer):
     mods = list(GHOST_LOG) + ["ghost.wcnt"]
     if has_buffer:
         mods.append("message_buffer.set_messages[key3(message)]")
-    ens = [P("C12/written-unchanged", "implies(not parks, appended(decoded_message) and wdom_recorded() and wcnt_bumped(message))")]
-    te = [P("C12/failed-nothing-written", "log_unchanged() and unchanged('ghost.wdom', 'ghost.wcnt') and not parks")]
+    ens = [P("C12/written-unchanged", "implies(not parks, appended(decoded_message) and wdom_recorded() and wcnt_bumped(message))"),
+           P("C08+C12/returns-only-if-no-write-failed", NOFAIL)]
+    te = [P("C12/failed-nothing-written", "log_unchanged() and unchanged('ghost.wdom', 'ghost.wcnt') and not parks"), H("C12/failure-counted", FAILED)]
     if has_buffer:
         ens.append(P("C07+C12/parked-under-its-key", "implies(parks, key3(message) in message_buffer.set_messages and "
                                                      "message_buffer.set_messages[key3(message)] is message and log_unchanged() "
                                                      "and unchanged('ghost.wdom', 'ghost.wcnt'))"))
-        ens.append(P("C12/buffer-untouched-when-written", "implies(not parks, same_dict(message_buffer.set_messages))"))
+        if name == "handle_set":
+            ens.append(P("C12/buffer-untouched-when-written", "implies(not parks, dict_only_at(message_buffer.set_messages, key3(message)))"))
+            ens.append(P("C07/direct-write-supersedes-parked-value", "implies(not parks, not (key3(message) in message_buffer.set_messages))"))
+        else:
+            ens.append(P("C12/buffer-untouched-when-written", "implies(not parks, same_dict(message_buffer.set_messages))"))
         ens.append(H("C12/internal-buffer-untouched", "same_dict(message_buffer.internal_messages)"))
         ens.append(P("C09+C12/guarantee-messages-not-mutated", "unchanged('Message.node_id', 'Message.child_id', 'Message.command', 'Message.ack', "
                                                                "'Message.message_type', 'Message.payload')"))
-        ens.append(P("C09/guarantee-entries-only-added-or-replaced", "forall(lambda q: implies(old(q in message_buffer.set_messages), q in message_buffer.set_messages), 'key3')"))
+        # what a send may do to the shared buffer: add or replace the entry of its own key, or - only when it wrote directly, which it does
+        # only for a destination that is not flagged sleeping - drop the entry of its own key; entries of other keys stay
+        ens.append(P("C09/guarantee-only-its-own-key-and-never-a-sleeping-nodes-entry",
+                     "forall(lambda q: implies(old(q in message_buffer.set_messages) and not (q in message_buffer.set_messages), "
+                     "q == key3(message) and not parks), 'key3')"))
         te.append(H("C12/failed-buffers-untouched", "same_dict(message_buffer.set_messages, message_buffer.internal_messages)"))
     ct = Contract(OUT14 + name,
                   params={"cls": "cls", "gateway": GW, "message": MSG, "message_buffer": buf, "decoded_message": TStr},
@@ -86,17 +95,20 @@ def listen_contract():
                   witness={"read_line": (TStr, "None")}, lets=lets,
                   modifies=["field:*"],
                   ensures=[P("C01+C02+C04/yields-the-decoded-line", fields),
-                           P("C03+C05/gateway-stays-usable", LISTEN_WF)],
+                           P("C03+C05/gateway-stays-usable", LISTEN_WF),
+                           P("C08/a-failed-write-is-reported", NOFAIL)],
                   raises={"AIOMySensorsError": [P("C03+C05/gateway-stays-usable", LISTEN_WF)]}, check_wf=False)
     ct.raises_only_id = "C03/raises-only"
     return ct
 
 
 def get_protocol_contract():
-    return Contract(GETP, params={"protocol_version": TStr}, returns=TProto,
-                    ensures=[P("C05/accepts-only-valid", "av_valid(protocol_version)"),
-                             P("C05/select", "proto_index(result) == select_idx(av_section(protocol_version, 0), av_section(protocol_version, 1))")],
-                    raises={"ValueError": [P("C05/rejects-only-invalid", "not av_valid(protocol_version)")]}, wf=False, check_wf=False)
+    ct = Contract(GETP, params={"protocol_version": TStr}, returns=TProto,
+                  ensures=[P("C05/accepts-only-valid", "av_valid(protocol_version)"),
+                           P("C05/select", "proto_index(result) == select_idx(av_section(protocol_version, 0), av_section(protocol_version, 1))")],
+                  raises={"ValueError": [P("C05/rejects-only-invalid", "not av_valid(protocol_version)")]}, wf=False, check_wf=False)
+    ct.raises_only_id = "C03+C05/raises-only"  # the callers on the receive path convert ValueError only
+    return ct
 
 
 def setter_contract():
